@@ -149,6 +149,7 @@ func Check(prop, tier string) int {
 	if ran == 0 {
 		common.Infra("no case ran")
 	}
+	fmt.Printf("phase histories: %d cases, %.0fs\n", ran, time.Since(start).Seconds())
 	// C17, C18: fault-point enumeration — for sampled invocations, every I/O call x every fault kind
 	if prop == "C17" || prop == "C18" {
 		nb := 3
@@ -226,6 +227,7 @@ func Check(prop, tier string) int {
 			}
 		}
 	}
+	fmt.Printf("phase fault-point enumeration done: %.0fs\n", time.Since(start).Seconds())
 	// C18: histories over evolving GENERATED modules (rich, realistic stale outputs)
 	if prop == "C18" {
 		ne := 30
@@ -265,6 +267,7 @@ func Check(prop, tier string) int {
 			}
 		}
 	}
+	fmt.Printf("phase evolving modules done: %.0fs\n", time.Since(start).Seconds())
 	// C19: model-based check of `wire show` on generated modules, under several iteration schedules
 	if prop == "C19" {
 		ns := 40
